@@ -301,8 +301,9 @@ class CounterToken(Token, FileSystemEventHandler):
                         tokenfile = TokenFile(path)
                         tokenfile.watch()
                         self.cache[path.name] = tokenfile
-        except FileNotFoundError:
-            # We did not find the token file... just ignore
+        except (FileNotFoundError, ValueError):
+            # The token file is gone, or created but not yet written (the
+            # modification event that follows the write will read it)
             pass
         except Exception:
             logger.exception("Uncaught exception in on_modified handler")
@@ -351,8 +352,8 @@ class CounterToken(Token, FileSystemEventHandler):
                             tokenfile = TokenFile(path)
                             tokenfile.watch()
                             self.cache[path.name] = tokenfile
-                        except FileNotFoundError:
-                            # Well, the file did not exist anymore...
+                        except (FileNotFoundError, ValueError):
+                            # The file does not exist anymore, or is not written yet
                             pass
         except Exception:
             logger.exception("Uncaught exception in on_modified handler")
